@@ -425,6 +425,7 @@ fn write_evidence(p: &dyn Property, a: &Args, st: &runner::Stats, planned: u64, 
         .set("simulated_steps", J::Int(st.ticks as i64))
         .set("simulated_time_note", J::str("the code has no clock or timer; simulated time is counted in interpreter steps (ticks)"))
         .set("distinct_run_shapes", J::Int(st.shapes.len() as i64))
+        .set("distinct_run_shapes_measure", J::str("a run's shape = the property's abstract summary of what happened in it (which reach probes fired, bucketed 0/1/2-4/5-20/>20, and how the run ended; for the interactive tools: depth reached, lines consumed, which history features occurred); the count is the number of distinct summaries over all runs"))
         .set("faults_injected", faults)
         .set("reach_probes", probes)
         .set("skipped", J::from_map(&st.skipped))
